@@ -229,6 +229,16 @@ def h_operators():
             got = vm.call_method(om, "map_comparison_operator", op, col, lit)
             ctx.check("OperatorMapper.map_comparison_operator::each-comparison-maps-to-the-same-sql-comparison",
                       z3.BoolVal(isinstance(got, Sql) and got.term == (sym, ("col",), 3)), detail=f"{name}: {got!r}")
+        # ... whichever side the column is on: `3 < col` stays `3 < col` (it is not read as `col < 3`)
+        for name, sym in ops.items():
+            op = vm.alloc(vm.ext("object"), {"__name__": name}, tag=f"operator.{name}")
+            got = vm.call_method(om, "map_comparison_operator", op, lit, col)
+            mirror = {"==": "==", "<": ">", ">": "<", "<=": ">=", ">=": "<="}[sym]
+            ok = isinstance(got, Sql) and got.term in ((sym, 3, ("col",)), (mirror, ("col",), 3))
+            ctx.check("OperatorMapper.map_comparison_operator::a-value-on-the-left-keeps-the-direction-of-the-comparison", z3.BoolVal(ok), detail=f"{name}(3, col): {got!r}")
+            got = vm.call_method(om, "map_comparison_operator", op, col, Sql(("col2",)))
+            ctx.check("OperatorMapper.map_comparison_operator::two-columns-keep-their-sides", z3.BoolVal(isinstance(got, Sql) and got.term in ((sym, ("col",), ("col2",)), (mirror, ("col2",), ("col",)))),
+                      detail=f"{name}(col, col2): {got!r}")
         op = vm.alloc(vm.ext("object"), {"__name__": "ne"}, tag="operator.ne")
         got = vm.call_method(om, "map_comparison_operator", op, col, lit)
         ctx.check("OperatorMapper.map_comparison_operator::inequality-is-null-safe", z3.BoolVal(isinstance(got, Sql) and got.term == ("is_distinct_from", ("col",), 3)), detail=repr(got))
@@ -370,7 +380,10 @@ def h_membership():
         vm.spec.stubs["EQLTranslator.translate_attribute"] = lambda it, a, k: col
         vm.spec.stubs["EQLTranslator._is_attribute_equality_join"] = lambda it, a, k: False
         cases = [("in_", PyList([1, 7]), ("in", ("T.x",), [1, 7]), False), ("contains", PyList([1, 7]), ("in", ("T.x",), [1, 7]), False),
-                 ("in_", PyList([]), ("in", ("T.x",), []), False), ("in_", PyList([5]), ("in", ("T.x",), [5]), False)]
+                 ("in_", PyList([]), ("in", ("T.x",), []), False), ("in_", PyList([5]), ("in", ("T.x",), [5]), False),
+                 # a collection with ONE text is still a collection (membership), not a text to search in
+                 ("in_", PyList(["Body1TestName"]), ("in", ("T.x",), ["Body1TestName"]), False), ("contains", PyList(["ab"]), ("in", ("T.x",), ["ab"]), False),
+                 ("in_", PyList(["a", "b"]), ("in", ("T.x",), ["a", "b"]), False)]
         for opname, values, want, neg in cases:
             lit = vm.alloc(Lit, {}, tag="literal-list")
             vm.spec.stubs["DomainValueExtractor.extract_from_literal"] = lambda it, a, k, values=values: values
